@@ -407,6 +407,17 @@ def run_program(size, ops, rng, policy, mode="mpi", auto=False, verbose=False, u
     measure = (0 if dead else 2 * state["todo"] + msize + 1) + sum(inbox)
     ans += (f" inbox={dash([str(x) for x in inbox])} outbox={dash([str(x) for x in outbox])} "
             f"steps={len(w.sched)} measure={measure} measure0={2 * len(ops) + msize + 1}")
+    # round 5c: the exact number of steps an error-free run still has to make, from the world:
+    # calls master() has not made + terminate() (+ with slaves: one serve() iteration per
+    # submit_call not yet made and one per slave for the terminate tuple) + messages waiting
+    nsub = sum(1 for o in ops if o[0] == "s")
+    nsub_left = sum(1 for o in ops[len(ops) - state["todo"]:] if o[0] == "s")
+    slaves = msize >= 2
+    stepsleft = (0 if dead else state["todo"] + 1 + (nsub_left + msize - 1 if slaves else 0)) \
+        + sum(inbox)
+    exact = len(ops) + nsub + msize if slaves else len(ops) + 1
+    ans += f" stepsleft={stepsleft} exact={exact}"
+    out["stepsleft"], out["exact_steps"] = stepsleft, exact
     req = (f"proto {1 if mode == 'noimport' else size} {dash([op_str(o) for o in ops])} "
            f"{dash([str(c) for c in w.sched])}")
     return req, ans, out, got
